@@ -5,6 +5,7 @@ import (
 	"fmt"
 	"time"
 
+	"github.com/absfs/absfs"
 	"github.com/absfs/absnfs"
 
 	"verif/harness/drv"
@@ -32,6 +33,15 @@ type session struct {
 
 func newSession(tb stat.TB, v *vfs.FS, opts absnfs.ExportOptions) *session {
 	e, err := drv.New(v, opts)
+	if err != nil {
+		tb.Fatalf("harness: absnfs.New: %v", err)
+	}
+	return &session{tb: tb, e: e, v: v, cl: drv.Root()}
+}
+
+// newSessionOn is newSession with the server running on backend (a wrapper around v).
+func newSessionOn(tb stat.TB, backend absfs.SymlinkFileSystem, v *vfs.FS, opts absnfs.ExportOptions) *session {
+	e, err := drv.New(backend, opts)
 	if err != nil {
 		tb.Fatalf("harness: absnfs.New: %v", err)
 	}
